@@ -2,8 +2,8 @@ package settle
 
 import (
 	"fmt"
-	"os"
 	"math/rand"
+	"os"
 	"sort"
 	"strings"
 	"sync"
@@ -65,7 +65,7 @@ func RunProperty(prop string, c04 bool, seed int64, tier, out string) {
 			res.CaseIndex = append(res.CaseIndex, class)
 		}
 		for _, n := range r.Notes {
-			if strings.Contains(n, "deadline") || strings.Contains(n, "context") {
+			if strings.Contains(n, "deadline exceeded") {
 				res.Warnings = append(res.Warnings, fmt.Sprintf("scenario %d: %s | %s", i, n, scs[i].String()))
 			}
 		}
